@@ -4,7 +4,9 @@
 
 use std::io::{BufRead, Write};
 
+mod common;
 mod sketch_mode;
+mod unsync_mode;
 
 pub trait Runner {
     /// Runs one operation line; returns the text after "-> ".
@@ -42,6 +44,7 @@ fn process(input: &mut dyn BufRead, out: &mut dyn Write) {
                 let cfg = parse_cfg(&toks[1..]);
                 runner = Some(match cfg.get("kind").copied() {
                     Some("sketch") => Box::new(sketch_mode::SketchRunner::default()),
+                    Some("unsync") => Box::new(unsync_mode::UnsyncRunner::new(&cfg)),
                     k => panic!("unknown kind {:?}", k),
                 });
             }
